@@ -1,5 +1,5 @@
 (* Properties_C11.v — C11: relocation entries round-trip in both formats, classes and byte orders. *)
-From ElfioV Require Import Bytes Mem Stream SectionData SectionData_proofs Strings Elfio Table Accessors Reloc_proofs.
+From ElfioV Require Import Bytes Mem Stream SectionData SectionData_proofs Strings Elfio Table Accessors Reloc_proofs Arrange_proofs.
 Local Open Scope N_scope.
 
 (* ABI packing of symbol and type: 24+8 bits (ELF32), 32+32 bits (ELF64) *)
@@ -35,6 +35,30 @@ Theorem C11_roundtrip :
     rel_get_core c e s (s_data s) j = Ok (Some (rel_view c is_rela r)).
 Proof. exact rel_roundtrip. Qed.
 Print Assumptions C11_roundtrip.
+
+(* rewriting an entry changes only that entry: the table afterwards is the
+   table with entry j replaced (so every other index still reads as before, by
+   C11_roundtrip on the new table); the section's size does not change *)
+Theorem C11_set_entry_changes_only_that_entry :
+  forall c e is_rela s (es : list rel_entry) j r r',
+    Inv s -> s_cls s = c ->
+    contents s = concat (map (rel_enc c e is_rela) es) ->
+    sh_type s = (if is_rela then SHT_RELA else SHT_REL) ->
+    sh_entsize s = rel_esz c is_rela -> sh_size s < size_bound c ->
+    nth_optN es j = Some r ->
+    exists b',
+      rel_set_core c e s (s_data s) j (re_offset r') (re_symbol r') (re_type r') (re_addend r') = Ok (Some b') /\
+      let s' := with_data s (Some b') (s_data_size s) in
+      Inv s' /\ contents s' = concat (map (rel_enc c e is_rela) (updN es j r')) /\ sh_size s' = sh_size s.
+Proof. exact rel_set_changes_only_that_entry. Qed.
+Print Assumptions C11_set_entry_changes_only_that_entry.
+
+(* swapping two symbol indices twice restores every entry's symbol index
+   (swap_symbols applies this exchange to each entry: modelled, differential runs) *)
+Theorem C11_swap_twice_restores :
+  forall a b x, Arrange_proofs.swap1 a b (Arrange_proofs.swap1 a b x) = x.
+Proof. exact swap1_involutive. Qed.
+Print Assumptions C11_swap_twice_restores.
 
 Theorem C11_out_of_range_refused :
   forall c e is_rela s (es : list rel_entry) j p,
